@@ -22,7 +22,8 @@ func UnpackMessage(message []byte, pack transport.Packager, source string) (*tra
 	doubleQuote := []byte("\"")
 	msg := message
 
-	if bytes.HasPrefix(message, doubleQuote) && bytes.HasSuffix(message, doubleQuote) {
+	// (the length check matters: a message that consists of one double quote is its own prefix and suffix)
+	if len(message) > 1 && bytes.HasPrefix(message, doubleQuote) && bytes.HasSuffix(message, doubleQuote) {
 		logger.Debugf("unpack msg from %s is wrapped with double quotes trying to base64 decode before unpacking..",
 			source)
 
